@@ -20,8 +20,10 @@ private attribute of any obfuscator (a refactoring of the table representation m
   oracle remembers the same things about both.
 
 A transition materialises a fresh copy of the predecessor's Cleaner from its snapshot, calls the real
-`clean_content`, reads `mapping()` of every obfuscator, evaluates the oracle, canonicalises.  A branch is cut at
-its first violation.  Every 53rd new state is rebuilt by replaying its history on a fresh Cleaner and compared
+`clean_content`, reads `mapping()` of every obfuscator, evaluates the oracle, canonicalises.  A branch is cut at its first violation - unless every
+violation of the event carries the structural trigger of a known defect family: then the originals involved are
+forgotten (kept as 'occurred') and the history goes on, so that states only reachable through a trigger are explored
+too (`forgive`).  Every 53rd new state is rebuilt by replaying its history on a fresh Cleaner and compared
 with the restored snapshot; the first 4 violating transitions of every
 (clause, feature vector) per work unit - a superset of the ones the result keeps - are re-executed from
 the initial state through `check_case` (the replay entry point) and must agree with the explorer, so an
@@ -105,8 +107,10 @@ KWS = ["SECRETKW"]
 SHAPE = {"1.2.3.4x": ("1.2.3.4", "x"), "192.168.10.5_y": ("192.168.10.5", "_y"),
          "db.corp.testx": ("db.corp.test", "x"), MAC1 + "x": (MAC1, "x")}
 HOST_CASE_VARIANT = "MAIL.corp.test"
-EXTRA = {"ip": ["1.2.3.4x", "192.168.10.5_y"],
-         "host": [HOST_CASE_VARIANT, "db.corp.testx"],
+# (BFS families carry one glued token each; every original x many glue / delimiter strings is covered by the explicit
+#  two-step histories of the "shapes" family - `192.168.10.5_y` and `db.corp.testx` moved there to hold the quick budget)
+EXTRA = {"ip": ["1.2.3.4x"],
+         "host": [HOST_CASE_VARIANT],
          "mk": [MAC1 + "x"],
          "v6": [],
          "mixed": ["1.2.3.4x"]}
@@ -175,7 +179,7 @@ FAMILIES = {
     "ip": IPS,
     "host": HOSTS,
     "mk": MACS + KWS,
-    "v6": V6S + [MAC1],
+    "v6": V6S,
     # cross-kind histories: one representative per structural class of every kind
     "mixed": ["1.2.3.4", "100.200.100.200", "10.230.230.1",
               SHORT, FQDN, "db.corp.test", "b.corp.test", "a.b.corp.test", "host2.example.com",
@@ -184,26 +188,28 @@ FAMILIES = {
 FAMILY_ORDER = ["ip", "host", "mk", "v6", "mixed"]
 
 BOUNDS = {
-    "quick": {"families": {"ip": {"tokens": "7 + 2 glued", "line_tokens": 2, "depth": 3},
-                           "host": {"tokens": "7 + case variant + 1 glued", "line_tokens": 2, "depth": 3},
+    "quick": {"families": {"ip": {"tokens": "7 + 1 glued", "line_tokens": 2, "depth": 3},
+                           "host": {"tokens": "7 + case variant", "line_tokens": 2, "depth": 3},
                            "mk": {"tokens": "5 + 1 glued", "line_tokens": 2, "depth": 3},
-                           "v6": {"tokens": "6 IPv6 + 1 MAC", "line_tokens": 2, "depth": 3},
+                           "v6": {"tokens": "6 IPv6", "line_tokens": 2, "depth": 3},
                            "mixed": {"tokens": "13 + 1 glued", "line_tokens": 2, "depth": 2}},
               "spec_lines": "1 line of <= line_tokens tokens, or 2 lines of 1 token each",
-              "counter_family": "6 long runs (300 IPv4 / 120 host names, ascending / descending / revisiting)"},
-    "thorough": {"families": {"ip": {"tokens": "7 + 2 glued", "line_tokens": 3, "depth": 4},
-                              "host": {"tokens": "7 + case variant + 1 glued", "line_tokens": 3, "depth": 4},
+              "counter_family": "6 long runs (300 IPv4 / 120 host names, ascending / descending / revisiting)",
+              "shapes_family": "9,815 explicit histories of 2-4 events: adjacent (two originals of a kind separated by one of : / , = - ( @ _ inside one token, or both glued), glue (every original x left/right literal text), channels (every ordered pair of clean_content(list) / clean_content(str) / width=True / clean_file / clean_file on netstat_-neopa on one Cleaner), exempt (no_obfuscate specs between normal ones), kw11 (11 configured keywords), second-cleaner (a second Cleaner in the same process), blank (empty lines / all-blank specs), fresh-process (second Cleaner vs a fresh interpreter)"},
+    "thorough": {"families": {"ip": {"tokens": "7 + 1 glued", "line_tokens": 3, "depth": 4},
+                              "host": {"tokens": "7 + case variant", "line_tokens": 3, "depth": 4},
                               "mk": {"tokens": "5 + 1 glued", "line_tokens": 3, "depth": 4},
-                              "v6": {"tokens": "6 IPv6 + 1 MAC", "line_tokens": 3, "depth": 4},
+                              "v6": {"tokens": "6 IPv6", "line_tokens": 3, "depth": 4},
                               "mixed": {"tokens": "13 + 1 glued", "line_tokens": 2, "depth": 3}},
                  "spec_lines": "1 line of <= line_tokens tokens (3-token lines over the base tokens only, without the "
                                "glued / case-variant additions), or 2 lines of 1 token each",
-                 "counter_family": "6 long runs (300 IPv4 / 120 host names, ascending / descending / revisiting)"},
+                 "counter_family": "6 long runs (300 IPv4 / 120 host names, ascending / descending / revisiting)",
+                 "shapes_family": "9,815 explicit histories of 2-4 events: adjacent (two originals of a kind separated by one of : / , = - ( @ _ inside one token, or both glued), glue (every original x left/right literal text), channels (every ordered pair of clean_content(list) / clean_content(str) / width=True / clean_file / clean_file on netstat_-neopa on one Cleaner), exempt (no_obfuscate specs between normal ones), kw11 (11 configured keywords), second-cleaner (a second Cleaner in the same process), blank (empty lines / all-blank specs), fresh-process (second Cleaner vs a fresh interpreter)"},
 }
-CAP_S = {"quick": 120, "thorough": 2400}
+CAP_S = {"quick": 300, "thorough": 3000}
 
 RULE = ("explicit-state BFS over histories of clean_content([line..]) events on one Cleaner; per family "
-        "(IPv4-only, host-only, MAC+keyword, mixed-kind representatives) the event menu is every spec of one "
+        "(IPv4-only, host-only, MAC+keyword, IPv6-only, mixed-kind representatives) the event menu is every spec of one "
         "line of <= k tokens (all ordered token tuples, repeats included; a token is an original alone or an original "
         "with a word character glued to its right, observed as <substitute><glue>; 3-token lines use the base tokens "
         "only) or two 1-token lines; histories up "
@@ -212,7 +218,11 @@ RULE = ("explicit-state BFS over histories of clean_content([line..]) events on 
         "mapping() of every obfuscator, oracle memory) - public observations only; depth-0/1 states are de-duplicated globally (one work unit per "
         "distinct depth-1 state), deeper states are de-duplicated and COUNTED PER UNIT (the same deeper state "
         "reached from two different depth-1 states is counted and expanded in both). evaluations = "
-        "transitions = distinct (state, event) executions of the real clean_content; a transition is "
+        "transitions = distinct (state, event) executions of the real clean_content; a branch is continued past a violation "
+        "only when every violation of the event carries the structural trigger of a known defect family (the involved "
+        "originals are then forgotten by the oracle), otherwise it is cut. On top of the BFS: 6 long counter runs and the "
+        "explicit 'shapes' histories (delimiter adjacency, glue, the five entry channels, no_obfuscate specs, 11 keywords, a "
+        "second Cleaner, blank lines), each executed once through the replay entry point. A transition / case is "
         "non-trivial when at least one occurrence in the event is a recurrence of an original already "
         "observed (same line, earlier line or earlier event), i.e. clause (1) compared two occurrences")
 ASSUMPTIONS = [
